@@ -425,3 +425,82 @@ def describe(res, g):
     res.count("outcome_" + g["oc"][0])
     mx = max(len(t) for t in g["teams"])
     res.count("maxteamsize_%d" % mx)
+
+
+# ---------------------------------------------------------------- C01: exact-leaf, high-precision specification
+def tm_bias_budget(g):
+    """per slot (allowed |d mu|, allowed |d sigma^2|) between the implementation and the closed form with EXACT
+    V, W, V~, W~ (evaluated by the driver on 192-bit floats): the documented asymptotic forms' stated errors
+    (C17: vt within 2t, wt within 20t + 1e-13/t, v and w within 2 percent on the asymptotic branch, 1e-6 relative
+    above the guard) propagated linearly through omega and delta, plus 1e-9 float accuracy."""
+    tau = g["tau"] if g["tauopt"] is None else g["tauopt"]
+    n = len(g["teams"])
+    beta, kappa = g["beta"], g["kappa"]
+    s2 = [sum(s * s + tau * tau for (_, s) in t) for t in g["teams"]]
+    th = [sum(m for (m, _) in t) for t in g["teams"]]
+    if g["oc"][0] == "N":
+        key = list(range(n))
+    elif g["oc"][0] == "R":
+        key = list(g["oc"][1])
+    else:
+        key = [-v for v in g["oc"][1]]
+    dense = [sum(1 for q in range(n) if key[q] < key[i]) for i in range(n)]
+    eps_om, eps_de = [0.0] * n, [0.0] * n
+    if IS_TM[g["kind"]]:
+        cm = 2.0 if g["kind"] == "TMP" else 1.0
+        order = sorted(range(n), key=lambda i: key[i])          # stable
+        pos = {i: k for k, i in enumerate(order)}
+        cb = gamma_callable(*g["gamma"])
+        for i in range(n):
+            if IS_PART[g["kind"]]:
+                opp = [order[k] for k in (pos[i] - 1, pos[i] + 1) if 0 <= k < n]
+            else:
+                opp = [q for q in range(n) if q != i]
+            for q in opp:
+                c = cm * math.sqrt(s2[i] + s2[q] + 2 * beta * beta)
+                t = kappa / c
+                x = (th[i] - th[q]) / c
+                s2c = s2[i] / c
+                gam = abs(cb(c, n, th[i], s2[i], None, dense[i])) if cb else math.sqrt(s2[i]) / c
+                if key[i] == key[q]:
+                    eps_om[i] += s2c * 2 * t
+                    eps_de[i] += gam * s2c / c * (20 * t + 1e-13 / t)
+                else:
+                    u = (x if key[i] < key[q] else -x) - t
+                    if wl_common.phi_major(u) < 2.3e-16:
+                        eps_om[i] += s2c * 0.02 * (abs(u) + 2)
+                        eps_de[i] += gam * s2c / c * 0.02
+                    else:
+                        eps_om[i] += s2c * 1e-6 * (abs(u) + 2)
+                        eps_de[i] += gam * s2c / c * 1e-6
+    out = []
+    for i, t in enumerate(g["teams"]):
+        row = []
+        for (m, s) in t:
+            v = s * s + tau * tau
+            share = v / s2[i] if s2[i] > 0 else 0.0
+            row.append((share * eps_om[i] * (1 + 1e-6) + 1e-9 * max(abs(m), beta), v * share * eps_de[i] * (1 + 1e-6) + 4e-9 * v))
+        out.append(row)
+    return out
+
+
+def compare_rate_exact(g, impl, model):
+    """implementation vs the exact-leaf high-precision closed form, within tm_bias_budget"""
+    if impl[0] != "OK":
+        return "impl raised %s" % (impl[1],)
+    if model[0] != "OK":
+        return "model status %s" % (model[0],)
+    bud = tm_bias_budget(g)
+    for ti, (a, b) in enumerate(zip(impl[1], model[1])):
+        if len(a) != len(b):
+            return "shape differs"
+        for pi, (x, y) in enumerate(zip(a, b)):
+            if x[0] != y[0]:
+                return "slot [%d][%d]: impl returns player %d, spec player %d" % (ti, pi, x[0], y[0])
+            bm, bs = bud[ti][pi]
+            if not abs(x[1] - y[1]) <= bm:
+                return "slot [%d][%d] mu: impl %r, exact closed form %r, allowed deviation %.3g" % (ti, pi, x[1], y[1], bm)
+            ls = (g["ls"] if g["lsopt"] is None else g["lsopt"])
+            if not abs(x[2] * x[2] - y[2] * y[2]) <= bs and not (ls and x[2] == g["teams"][ti][pi][1]):
+                return "slot [%d][%d] sigma^2: impl %r, exact closed form %r, allowed deviation %.3g" % (ti, pi, x[2] ** 2, y[2] ** 2, bs)
+    return None
